@@ -140,6 +140,16 @@ CHECKS = [
         "Trusted: immediate grammar of mc/spec.py, tokenizer mc/asm.py, byte-string decoders in mc/checks/c16.py. `method` round trip only.",
         "exhaustive enumeration of a finite representative line grammar against an independent tokenizer/decoder and a round-trip relation",
         "DESIGN.md 3/C16"),
+    chk("C17", "model_checking",
+        "G1 raw layouts (dead code that branches or calls, labels at the end, empty subroutines, back-to-back labels, branch/call as last "
+        "instruction, retsub in main), skeleton-heavy G2 programs (recursion, loops) and programs with unknown gtxn indices, run-time "
+        "comparands and out-of-table enum constants, also under other pragma versions and without pragma x seven subcommands "
+        "(detect text / JSON, five printers; option variants on every 7th program): tealer.__main__.main() is driven in-process with "
+        "patched argv and must return or exit 0 without traceback; a fixed slice is re-run through real `python -m tealer` subprocesses "
+        "and must agree.",
+        "The in-process call is taken as the CLI (a slice is compared with real subprocesses). Filter: bodies entered only through callsub.",
+        "bounded-exhaustive enumeration of (program layout x subcommand) executions of the real entry point; oracle = no internal error",
+        "DESIGN.md 3/C17"),
     chk("C19", "exploration",
         "Every opcode x field of the independent v1-v8 table as a one-instruction program under #pragma version 1-8 and without pragma: the "
         "'not supported' diagnostics (instruction and field, with the introduction version they print) must appear exactly when the table "
